@@ -49,6 +49,41 @@ func runC05(c *Ctx) {
 		}
 		return out
 	}
+	// ---- R8 the pre-block value of a key (cacheValue.init) is recorded once, when the entry is
+	// created, and survives every later write of the block: set() updates the entry in place
+	// (it never re-creates it, which would forget init and turn an update into an "added"
+	// key that a revert deletes), and init is only ever assigned on a freshly allocated value
+	if setFn := c.Anchor("pkg/db/diffdb.(*cacheDB).set"); setFn != nil {
+		bad := ""
+		for _, b := range blocksDeep(setFn) {
+			for _, in := range b.Instrs {
+				switch x := in.(type) {
+				case *ssa.MapUpdate:
+					if T(x.Map).Any(IsField("db/diffdb.cacheDB", "data").F) {
+						bad = "replaces the map entry at " + p.InstrPos(in)
+					}
+				case ssa.CallInstruction:
+					if n := CalleeName(x.Common()); n == "(*db/diffdb.cacheDB).add" || n == "(*db/diffdb.cacheDB).cache" {
+						bad = "re-creates the entry through " + n + " at " + p.InstrPos(in)
+					}
+				}
+			}
+		}
+		c.Require("C05.R8 init-survives-rewrites", FuncKey(setFn), p.Pos(setFn.Pos()), "a staged write updates the existing entry in place", bad == "", bad)
+	}
+	nInit := 0
+	for _, fn := range p.Subjects() {
+		if !strings.HasPrefix(FuncKey(fn), "pkg/db/diffdb.") || len(fn.Blocks) == 0 || !IsProd(fn) {
+			continue
+		}
+		for _, st := range storesToField(fn, "db/diffdb.cacheValue", "init") {
+			nInit++
+			fa := st.Addr.(*ssa.FieldAddr)
+			_, fresh := stripConv(fa.X).(*ssa.Alloc)
+			c.Require("C05.R8 init-survives-rewrites", FuncKey(fn)+": init =", p.InstrPos(st), "init is assigned only while the value is being constructed", fresh, "base: "+T(fa.X).String())
+		}
+	}
+	c.MinInstances("C05.R8 init assignments", nInit, 2)
 	// temp family
 	tempSet := collect(rmBlock, "Set")
 	tempDel := collect(saveBlock, "Del")
@@ -323,6 +358,18 @@ func appendTargets(fn *ssa.Function, owner string) map[*ssa.Call]string {
 func kvLiteral(tb *termBuilder, v ssa.Value) (key, val *Term, ok bool) {
 	al, isAl := stripConv(v).(*ssa.Alloc)
 	if !isAl {
+		// a constructor (new helper whose one return hands back the literal): its fields,
+		// written with the call's arguments
+		if call, isCall := stripConv(v).(*ssa.Call); isCall {
+			if g := newHelperCallee(call); g != nil {
+				if rets := Returns1(g); len(rets) == 1 && len(rets[0].Results) == 1 {
+					if k, vv, ok := kvLiteral(newTB(), rets[0].Results[0]); ok {
+						args := argTerms(tb, call)
+						return substParams(k, args), substParams(vv, args), true
+					}
+				}
+			}
+		}
 		return nil, nil, false
 	}
 	for _, r := range *al.Referrers() {
